@@ -1797,6 +1797,8 @@ class HDKey(Key):
         """
 
         script_type = None
+        if isinstance(network, Network):
+            network = network.name
 
         # if (key and not chain) or (not key and chain):
         #     raise BKeyError("Please specify both key and chain, use import_key attribute "
